@@ -242,4 +242,48 @@ def c20Specific (args : List String) (impl : String) : String × String :=
     | _, _, _, _, _, _, _ => ("bad-op", "n/a")
   | _ => ("bad-op", "n/a")
 
+/-- `txid:vout:sats|…` or `nil` -/
+def parseVUtxos? (s : String) : Option (List UTXO) :=
+  if s == "nil" then some [] else
+  (s.splitOn "|").mapM fun x =>
+    match x.splitOn ":" with
+    | [t, v, sa] => do pure { txid := (← hexDec t), vout := (← v.toNat?), script := none, sats := (← sa.toNat?) }
+    | _ => none
+
+/-- `C20.validate <L|B|D> <pstx> <utxos|nil> <bid> <fq>`: the validation gates of the three flows on their own.
+    Predicate (stated apart from the model): an offer is accepted only when the input the gate protects spends exactly
+    the expected outpoint (for the two-dummies bid: every input spends the listed previous output, in order). -/
+def c20Validate (args : List String) (impl : String) : String × String :=
+  match args with
+  | [kind, d, us, bid, q] =>
+    match parseTx? d, parseVUtxos? us, bid.toNat?, parseFq? q with
+    | some tx, some us, some bid, some fq =>
+      let res : Option (Option Tx) := match kind, us with
+        | "L", [] => some none
+        | "L", u :: _ => some (if validateListing tx u then some tx else none)
+        | "B", u :: _ => some (validateBid tx u bid fq)
+        | "D", _ => some (validateBid2D tx us bid fq)
+        | _, _ => none
+      match res with
+      | none => ("bad-op", "n/a")
+      | some r =>
+        let model := match r with
+          | none => "v=0 outs=-"
+          | some t => s!"v=1 outs={",".intercalate (t.outputs.map fun o => toString o.sats)}"
+        let same (i : Option Input) (u : Option UTXO) : Bool :=
+          match i, u with
+          | some i, some u => i.prevTxID == u.txid && i.vout == u.vout
+          | _, _ => false
+        let expected : Bool := match kind with
+          | "L" => tx.inputs.length == 1 && tx.outputs.length == 1 && same tx.inputs[0]? us[0]?
+          | "B" => same tx.inputs[1]? us[0]?
+          | _ => us.length == tx.inputs.length && (List.range us.length).all fun k => same tx.inputs[k]? us[k]?
+        let accepted := impl.startsWith "v=1"
+        let pred := if impl.startsWith "panic" then "false:panic"
+          else if accepted && !expected then "false:offer-for-another-outpoint-accepted"
+          else "true"
+        (model, pred)
+    | _, _, _, _ => ("bad-op", "n/a")
+  | _ => ("bad-op", "n/a")
+
 end GoBT.Driver
